@@ -59,6 +59,7 @@ let () = run_lines (fun toks ->
     let (t, r) = Model.x_ru_rt (nat_of_int (int_of_string k - 6)) (b hx) (z_of_string a) (chars_of_hex tl) in hex_of_chars t ^ " " ^ r3 r
   | ["ri.rt"; k; hx; a; tl] ->
     let (t, r) = Model.x_ri_rt (nat_of_int (int_of_string k - 6)) (b hx) (z_of_string a) (chars_of_hex tl) in hex_of_chars t ^ " " ^ r3 r
+  | ["ru.wbuf"; buf; a] -> hex_of_chars (Model.x_ru_write_buf (nat_s buf) (z_of_string a))
   | ["ru.write"; k; hx; a] -> hex_of_chars (Model.x_ru_write (nat_of_int (int_of_string k - 6)) (b hx) (z_of_string a))
   | ["ru.read"; k; hx; h] -> r3 (Model.x_ru_read (nat_of_int (int_of_string k - 6)) (b hx) (chars_of_hex h))
   | ["ri.write"; k; hx; a] -> hex_of_chars (Model.x_ri_write (nat_of_int (int_of_string k - 6)) (b hx) (z_of_string a))
